@@ -41,8 +41,16 @@ inductive Err where
   | key | attr | type | index | name | value | syntax | oom
 deriving DecidableEq, Repr
 
+/-- a stored scalar: an int or `None` -/
+inductive Val where
+  | int (i : Int)
+  | none
+deriving DecidableEq, Repr
+
+instance : OfNat Val n := ⟨.int n⟩
+
 inductive Tree where
-  | leaf (v : Int)
+  | leaf (v : Val)
   | node (kvs : List (Name × Tree))
   | list (xs : List Tree)
 deriving Repr
@@ -220,6 +228,10 @@ def parseInt (s : Name) : Option Int :=
       some (if neg then -n else n)
     else none
 
+/-- an index literal as `eval` reads it: leading spaces are skipped (`iteritems` right-aligns the index
+of a list of ten or more mappings: `rows[ 3].v`) -/
+def parseIdx (s : Name) : Option Int := parseInt (s.dropWhile (· = ' '))
+
 /-- `[i][j]…` up to the end of the text -/
 def parseGroups : Nat → Name → Option (List Int)
   | 0, _ => none
@@ -230,7 +242,7 @@ def parseGroups : Nat → Name → Option (List Int)
       match s.dropWhile (· ≠ ']') with
       | [] => none
       | _ :: after =>
-        match parseInt inner, parseGroups n after with
+        match parseIdx inner, parseGroups n after with
         | some i, some r => some (i :: r)
         | _, _ => none
     else none
@@ -338,6 +350,7 @@ def pRest : Nat → Ex → Name → Option (Ex × Name)
   | _ + 1, acc, s => some (acc, s)
 def pTerm : Nat → Name → Option (Ex × Name)
   | 0, _ => none
+  | f + 1, ' ' :: r => pTerm f r
   | f + 1, '-' :: r => (pAtom f r).map fun (e, r') => (.neg e, r')
   | f + 1, s => pAtom f s
 def pAtom : Nat → Name → Option (Ex × Name)
@@ -385,14 +398,14 @@ def parseFull (s : Name) : Option Ex :=
 /-- `value[index]` -/
 def subscriptV (v i : Tree) : Except Err Tree :=
   match v, i with
-  | .list xs, .leaf n => subscript (.list xs) n
+  | .list xs, .leaf (.int n) => subscript (.list xs) n
   | .node _, .node _ => .error .oom      -- `'[' in key` on a dotdict key ends in `eval( '[' )`
   | _, _ => .error .type
 
 /-- evaluation with the dotdict as locals: a name is an entry of this level (`NameError` if absent),
 `.attr` on a mapping is `__getattr__` (`AttributeError` if absent) -/
 def evalEx (kvs : Kvs) : Ex → Except Err Tree
-  | .int n => .ok (.leaf n)
+  | .int n => .ok (.leaf (.int n))
   | .name s =>
     (match lookupK s kvs with
      | none => .error .name
@@ -415,7 +428,7 @@ def evalEx (kvs : Kvs) : Ex → Except Err Tree
   | .neg e =>
     (match evalEx kvs e with
      | .error x => .error x
-     | .ok (.leaf n) => .ok (.leaf (-n))
+     | .ok (.leaf (.int n)) => .ok (.leaf (.int (-n)))
      | .ok _ => .error .type)
   | .add a b =>
     (match evalEx kvs a with
@@ -425,7 +438,7 @@ def evalEx (kvs : Kvs) : Ex → Except Err Tree
        | .error x => .error x
        | .ok vb =>
          match va, vb with
-         | .leaf x, .leaf y => .ok (.leaf (x + y))
+         | .leaf (.int x), .leaf (.int y) => .ok (.leaf (.int (x + y)))
          | .list xs, .list ys => .ok (.list (xs ++ ys))
          | _, _ => .error .type)
   | .minus a b =>
@@ -436,7 +449,7 @@ def evalEx (kvs : Kvs) : Ex → Except Err Tree
        | .error x => .error x
        | .ok vb =>
          match va, vb with
-         | .leaf x, .leaf y => .ok (.leaf (x - y))
+         | .leaf (.int x), .leaf (.int y) => .ok (.leaf (.int (x - y)))
          | _, _ => .error .type)
 
 /-- where a reference lives: keys and (normalised) list positions from this level -/
@@ -447,7 +460,7 @@ def placeEx (kvs : Kvs) : Ex → Option (List PStep)
   | .name s => some [.key s]
   | .sub e i =>
     (match placeEx kvs e, evalEx kvs e, evalEx kvs i with
-     | some p, .ok (.list xs), .ok (.leaf n) => (normIndex xs.length n).map fun j => p ++ [.idx j]
+     | some p, .ok (.list xs), .ok (.leaf (.int n)) => (normIndex xs.length n).map fun j => p ++ [.idx j]
      | _, _, _ => none)
   | .attr e a => (placeEx kvs e).map fun p => p ++ [.key a]
   | _ => none
@@ -538,12 +551,12 @@ inductive FinalIdx where
 
 /-- the text between the first `[` and the final `]` of the last segment, as `eval` sees it -/
 def parseFinalIdx (t : Name) : FinalIdx :=
-  match parseInt t with
+  match parseIdx t with
   | some i => .lit i
   | none =>
     -- `0][1`: what a doubly indexed final segment leaves between the outer brackets
     let inner := t.takeWhile (· ≠ ']')
-    match parseInt inner, t.dropWhile (· ≠ ']') with
+    match parseIdx inner, t.dropWhile (· ≠ ']') with
     | some _, ']' :: after =>
       (match parseGroups (after.length + 1) (after ++ [']']) with
        | some (_ :: _) => .syntaxErr
@@ -595,7 +608,7 @@ def setK (cfg : Cfg) : Kvs → List Name → Option Err → Except Err Tree → 
              | some ex =>
                match evalEx kvs ex with
                | .error e => (kvs, some e)
-               | .ok (.leaf i) => setIndexed kvs (beforeBracket m) i tv
+               | .ok (.leaf (.int i)) => setIndexed kvs (beforeBracket m) i tv
                | .ok _ => (kvs, some .oom))
           | .syntaxErr => (kvs, some .syntax)
           | .lit i =>
@@ -855,7 +868,7 @@ namespace Cpppo.Dotdict.Heap
 open Cpppo.Dotdict
 
 inductive Obj where
-  | int (v : Int)
+  | int (v : Val)
   | dict (kvs : List (Name × Nat))
   | list (xs : List Nat)
 deriving Repr, DecidableEq
@@ -947,7 +960,7 @@ def assign (h : Heap) (root : Nat) (path : List Step) (k : Name) (v : Int) : Opt
   | some a =>
     match cell h a with
     | .dict kvs =>
-      let h1 := h ++ [.int v]
+      let h1 := h ++ [.int (.int v)]
       some (h1.set a (.dict (putKey k h.length kvs)))
     | _ => none
 
